@@ -366,7 +366,7 @@ func fixInts(x any) any {
 
 func run(c *core.Ctx) error {
 	vals := ValuePool()
-	uni := Universe(c.Rand, c.Pick(27, 81), c.Pick(150, 2500))
+	uni := Universe(c.Rand, c.Pick(27, 81), c.Pick(150, 1500))
 	c.Logf("instance: %d values (depth <= 2), %d patterns (all leaves, all depth-1 forms, seeded depth-2)", len(vals), len(uni))
 
 	// ---- the switches of the instance
@@ -400,7 +400,7 @@ func run(c *core.Ctx) error {
 		add(anyTy, []M{p}, "switch", "match")
 	}
 	// switches of 2 and 3 cases in every order (seeded sample of case sets)
-	nTriples, nPairs := c.Pick(60, 1200), c.Pick(40, 600)
+	nTriples, nPairs := c.Pick(60, 600), c.Pick(40, 300)
 	for k := 0; k < nTriples; k++ {
 		ps := []M{uni[c.Rand.Intn(len(uni))], uni[c.Rand.Intn(len(uni))], uni[c.Rand.Intn(len(uni))]}
 		for _, pm := range perms(3) {
@@ -416,7 +416,7 @@ func run(c *core.Ctx) error {
 
 	// catch lists over typed thrown values: the construct on which the checker decides exhaustiveness
 	var catchUnits []*unit
-	for _, cand := range catchCandidates(c.Rand, c.Pick(100, 900)) {
+	for _, cand := range catchCandidates(c.Rand, c.Pick(100, 600)) {
 		id++
 		s := &Switch{ID: id, Form: "catch", Ty: cand.ty, Cases: cand.cases}
 		catchUnits = append(catchUnits, &unit{sw: s, idx: allIdx(cand.ty)})
@@ -454,7 +454,7 @@ func run(c *core.Ctx) error {
 				notClaimed++
 			} else {
 				catchOOD++
-				if catchOOD <= 60 {
+				if catchOOD <= 3 {
 					c.Note(fmt.Sprintf("catch candidate out of domain: %s: %s", describe(u.sw), firstLine(d)))
 				}
 			}
@@ -526,7 +526,7 @@ func run(c *core.Ctx) error {
 			}
 			if d, ok := res.rejected[fn]; ok {
 				ood++
-				if ood <= 60 {
+				if ood <= 5 {
 					c.Note(fmt.Sprintf("out of domain (rejected): %s: %s", describe(u.sw), firstLine(d)))
 				}
 				continue
